@@ -407,6 +407,13 @@ func moveOutFile(w *bytes.Buffer, param *syntax.StructMember,
 	// If file doesn't exist (e.g. stage just didn't create it)
 	// then report null
 	if info, err := os.Lstat(filePath); os.IsNotExist(err) {
+		// Unless a previous run was interrupted after moving it to outs/
+		// but before symlinking it back, in which case finish the job.
+		outPath := path.Join(outsPath, param.GetOutFilename())
+		if info, err := os.Lstat(outPath); err == nil &&
+			info.Mode()&os.ModeSymlink == 0 {
+			return linkMovedOutFile(w, value, filePath, outPath)
+		}
 		_, err := w.Write(nullBytes)
 		return err
 	} else if err != nil {
@@ -456,7 +463,13 @@ func moveOutFile(w *bytes.Buffer, param *syntax.StructMember,
 		}
 		return err
 	}
+	return linkMovedOutFile(w, value, filePath, outPath)
+}
 
+// Symlinks a file which was moved to outs/ back to its original location,
+// and reports its new location.
+func linkMovedOutFile(w *bytes.Buffer, value json.RawMessage,
+	filePath, outPath string) error {
 	// Generate the relative path from files/ to outs/
 	relPath, err := filepath.Rel(filepath.Dir(filePath), outPath)
 	if err != nil {
